@@ -167,7 +167,7 @@ class Gen:
                 pos, kw = self.kv(parts[2:])
                 mod.run(self, kw, None, 'specs/' + spec_rel, i + 1)
                 i += 1
-            elif d in ('fn', 'arm', 'closure', 'loopbody'):
+            elif d in ('fn', 'arm', 'closure', 'loopbody', 'fnprefix'):
                 j = i + 1
                 block = []
                 while j < len(lines) and lines[j].strip() != '//@end':
@@ -300,7 +300,24 @@ class Gen:
                 if n >= len(loops):
                     raise LostAnchor('loop %d not found' % n)
                 inserts.append((src.toks[loops[n][3]].start, '\n' + txt + '\n'))
+        replacements = []
         for (n, needle, txt) in proof_ins:
+            if needle == '@closure':
+                # R6: the n-th inline closure gets typed parameters, a named return and a contract; its body is
+                # wrapped in braces.  `|p| EXPR`  =>  `|p: T| -> (r: U) <contract> { EXPR }`
+                params, ret, contract = txt
+                cs = find_inline_closures(src, lo_tok, hi_tok)
+                if n >= len(cs):
+                    raise LostAnchor('inline closure %d not found' % n)
+                first, ptext, b_lo, b_hi = cs[n]
+                bar1 = first if src.is_p(first, '|') else first + 1
+                bar2 = b_lo - 1
+                replacements.append((src.toks[bar1].end, src.toks[bar2].start, params))
+                braced = src.is_p(b_lo, '{')
+                inserts.append((src.toks[b_lo].start, ' -> (%s)\n%s\n%s' % (ret, contract, '' if braced else '{ ')))
+                if not braced:
+                    inserts.append((src.toks[b_hi].end, ' }'))
+                continue
             if needle == '@tail':
                 # before the tail expression (or the closing brace) of the block [lo_tok, hi_tok]
                 k, last_semi = lo_tok + 1, None
@@ -328,15 +345,16 @@ class Gen:
                 if pos < 0:
                     raise LostAnchor('proof anchor not found: %r' % needle)
             inserts.append((base + pos, '\n' + txt + '\n'))
-        inserts.sort()
+        events = [(off, 0, txt, off) for off, txt in inserts] + [(a, 1, txt, b) for a, b, txt in replacements]
+        events.sort(key=lambda e: (e[0], e[1]))
         segs = []
         cur = src.toks[lo_tok].start
         end = src.toks[hi_tok].end
-        for off, txt in inserts:
+        for off, kind, txt, upto in events:
             if off > cur:
                 segs.append((src.text[cur:off], 'code', src.line_of(cur)))
             segs.append((txt, 'spec', src.line_of(off)))
-            cur = off
+            cur = max(cur, upto)
         segs.append((src.text[cur:end], 'code', src.line_of(cur)))
         return segs
 
@@ -348,10 +366,10 @@ class Gen:
             else:
                 self.emit(text.strip('\n'), 'spec', rel, line, False)
 
-    @staticmethod
-    def parse_block(block):
+    def parse_block(self, block):
         """Split the `//@ ` lines of a block into contract / loop insertions / proof insertions / raw header."""
         contract, loops, proofs = [], {}, []
+        self_closures = []
         cur = contract
         for (ln, raw) in block:
             s = raw.strip()
@@ -359,6 +377,11 @@ class Gen:
                 n = int(s.split()[1])
                 loops[n] = []
                 cur = loops[n]
+            elif s.startswith('//@closurespec'):
+                m = re.match(r'//@closurespec\s+(\d+)\s+\|(.*)\|\s*->\s*(.*)$', s)
+                entry = [int(m.group(1)), m.group(2).strip(), m.group(3).strip(), []]
+                self_closures.append(entry)
+                cur = entry[3]
             elif s.startswith('//@proof'):
                 m = re.match(r'//@proof\s+(\d+)\s+(.*)$', s)
                 entry = [int(m.group(1)), m.group(2), []]
@@ -368,8 +391,10 @@ class Gen:
                 cur.append(s[3:].lstrip(' ') if not raw.startswith('//@  ') else raw[3:])
             else:
                 cur.append(raw)
-        return ('\n'.join(contract), {n: '\n'.join(v) for n, v in loops.items()},
-                [(n, needle, '\n'.join(v)) for n, needle, v in proofs])
+        pr = [(n, needle, '\n'.join(v)) for n, needle, v in proofs]
+        for (n, params, ret, v) in self_closures:
+            pr.append((n, '@closure', (params, ret, '\n'.join(v))))
+        return ('\n'.join(contract), {n: '\n'.join(v) for n, v in loops.items()}, pr)
 
     def begin_block(self, oblig, kind, rel, src, lo_tok, hi_tok, what):
         if oblig in self.blocks:
@@ -522,6 +547,33 @@ class Gen:
         self.emit_segs(segs, rel)
         if not braced:
             self.emit('}', 'spec', specfile, specline, False)
+        self.end_block(c_lo, c_hi)
+
+    def do_fnprefix(self, parts, block, specfile, specline):
+        """R3b: the statements of a function body before a given statement, as a function of their own."""
+        pos, kw = self.kv(parts)
+        rel, selector = pos[0], pos[1]
+        src, it = self.find_fn(rel, selector)
+        needle = kw['upto'].replace('~', ' ')
+        base = src.toks[it.body_open].end
+        body = src.text[base:src.toks[it.end].start]
+        k = body.find(needle)
+        if k < 0:
+            raise LostAnchor('fnprefix: %r not found in %s' % (needle, selector))
+        # last token that ends before base+k
+        hi = it.body_open
+        while hi + 1 < it.end and src.toks[hi + 1].end <= base + k:
+            hi += 1
+        oblig = kw['as']
+        header, loops, proofs = self.parse_block(block)
+        self.begin_block(oblig, 'prefix', rel, src, it.body_open + 1, hi, selector + ' statements before `%s`' % needle)
+        c_lo = len(self.out)
+        self.emit(header, 'spec', specfile, specline + 1)
+        c_hi = len(self.out)
+        self.emit('{', 'spec', specfile, specline, False)
+        segs = self.body_with_insertions(src, it.body_open + 1, hi, loops, proofs, rel)
+        self.emit_segs(segs, rel)
+        self.emit('}', 'spec', specfile, specline, False)
         self.end_block(c_lo, c_hi)
 
     def do_loopbody(self, parts, block, specfile, specline):
